@@ -372,6 +372,19 @@ def probes(m, sim, chk, res):
     evs = sim.rx(0x123, bytes([1, 2, 3]))
     if not chk.step(evs, [], (1, 1) if live else open_unclaimed, None, "foreign"):
         return False
+    # P6b identifiers that equal a service identifier in their low bits only (29-bit / flag bits set; one of eight per probe round): no
+    # service claims them - an NMT command byte in such a frame commands nothing
+    exo = [(0x20000000, "nmt"), (0x40000000, "nmt"), (0x00010000, "nmt"), (0x80000000, "nmt"), (0x1FFF0000, "nmt"),
+           (0x20000000 | (0x600 + nid), "sdo"), (0x00010000 | 0x80, "sync"), (0x20000000 | 0x7E5, "lss")][m.nprobe % 8]
+    data = {"nmt": bytes([1 if mode != OP else 128, nid]), "sdo": bytes([0x40, 0x00, 0x10, 0x00, 0, 0, 0, 0]), "sync": b"", "lss": bytes([0x5E, 0, 0, 0, 0, 0, 0, 0])}[exo[1]]
+    chk.what = "probe identifier %x (looks like %s in its low bits) in mode %d" % (exo[0], exo[1], mode)
+    evs = sim.rx(exo[0], data)
+    if not chk.step(evs, [], (1, 1) if live else open_unclaimed, {"mode": 0, "resetreq": 0, "pdotx": 0}, "foreign-high-bits"):
+        return False
+    got = int(sim.ret("getmode")[0])
+    if got != mode and mode != DEAD:
+        chk.fail("foreign-high-bits/mode", "NMT mode %d after the frame, reference %d" % (got, mode))
+        return False
     # P7 EMCY set / clear
     chk.what = "probe EMCY in mode %d" % mode
     if m.emcy:
